@@ -732,10 +732,15 @@ func replayFileRT(line []byte, a *Acc) {
 				}
 			}
 		}
-		// ---- gob, Copy
+		// ---- gob, Copy (all Maps are encoded first: a returned gob belongs to the caller and must survive later calls)
+		gobs := make([][]byte, len(ms))
+		gerrs := make([]error, len(ms))
+		for i, m := range ms {
+			gobs[i], gerrs[i] = m.Gob()
+		}
 		for i, m := range ms {
 			cases++
-			g, gerr := m.Gob()
+			g, gerr := gobs[i], gerrs[i]
 			m2, derr := mxj.NewMapGob(g)
 			if gerr != nil || derr != nil || tagged.CanonGo(m2) != orig[i] {
 				one("filert:gob", fmt.Sprintf("Gob/NewMapGob of %s gave %s (%v %v)", orig[i], tagged.CanonGo(m2), gerr, derr))
